@@ -49,7 +49,7 @@ func init() {
 			"conventions encoded: Root ignores EndTkn; trait adaptations ignore their semicolon; a node without constituents has a nil/all -1 position; an empty statement list (Stmts, or the catch list of a try) forming a boundary yields -1 which propagates to ancestors bounded by that child",
 			"struct field order = source order of a node's constituents (separator lists interleaved with the list they follow)",
 		},
-		Plan: func(p core.Params) int { return p.Pick(60000, 3000000) },
+		Plan: func(p core.Params) int { return p.Pick(150000, 3000000) },
 		Run: func(c *core.Ctx, idx int) {
 			c05Case(c, genParseCase(c.P.Seed, "C05", idx, 15))
 		},
